@@ -286,7 +286,7 @@ def main(tier):
             'thread order of all reported arrivals)')
     V = Verdict('C09', tier, rule)
     V.minima = {'stops_checked': 800, 'allstop_double_samples': 800, 'runs_completed': 8} if tier == 'quick' else \
-        {'stops_checked': 40000, 'allstop_double_samples': 40000, 'runs_completed': 300}
+        {'stops_checked': 15000, 'allstop_double_samples': 15000, 'runs_completed': 100}
     V.assumptions = ['the debuggee\'s own SeqCst counters are the ground truth for arrivals; /proc task states are the ground truth for stopped',
                      'a watchdog expiry is inconclusive']
     all_cpus = None
